@@ -14,7 +14,7 @@
 (***************************************************************************)
 EXTENDS Integers, Sequences
 
-D(x) == x[1]
+Dv(x) == x[1]
 At(h, i) == h[i + 1]
 Swap(h, i, j) == [h EXCEPT ![i + 1] = h[j + 1], ![j + 1] = h[i + 1]]
 
@@ -31,19 +31,19 @@ RECURSIVE SiftDown(_, _, _)
 SiftDown(h, kk, n) ==
     IF 2 * kk <= n
     THEN LET j0 == 2 * kk
-             j  == IF j0 < n /\ D(At(h, j0)) < D(At(h, j0 + 1)) THEN j0 + 1 ELSE j0
-         IN  IF D(At(h, kk)) >= D(At(h, j)) THEN h
+             j  == IF j0 < n /\ Dv(At(h, j0)) < Dv(At(h, j0 + 1)) THEN j0 + 1 ELSE j0
+         IN  IF Dv(At(h, kk)) >= Dv(At(h, j)) THEN h
              ELSE SiftDown(Swap(h, kk, j), j, n)
     ELSE h
 
 Parent(j) == IF j = 1 THEN 0 ELSE j \div 2
-HeapOrdered(h) == \A j \in 1..(Len(h) - 1) : D(At(h, Parent(j))) >= D(At(h, j))
+HeapOrdered(h) == \A j \in 1..(Len(h) - 1) : Dv(At(h, Parent(j))) >= Dv(At(h, j))
 
 (* sort(): stable, descending by d  (Vec::sort_by(|a, b| b.partial_cmp(a))) *)
 RECURSIVE InsertDesc(_, _)
-InsertDesc(s, x) ==   \* x goes after every element with d >= D(x): stability
+InsertDesc(s, x) ==   \* x goes after every element with d >= Dv(x): stability
     IF s = <<>> THEN <<x>>
-    ELSE IF D(Head(s)) >= D(x) THEN <<Head(s)>> \o InsertDesc(Tail(s), x) ELSE <<x>> \o s
+    ELSE IF Dv(Head(s)) >= Dv(x) THEN <<Head(s)>> \o InsertDesc(Tail(s), x) ELSE <<x>> \o s
 RECURSIVE SortDescUpTo(_, _)
 SortDescUpTo(s, j) == IF j = 0 THEN <<>> ELSE InsertDesc(SortDescUpTo(s, j - 1), s[j])
 SortDesc(s) == SortDescUpTo(s, Len(s))
@@ -55,14 +55,14 @@ SortDesc(s) == SortDescUpTo(s, Len(s))
 (*   skip          n >= k, element >= a[0]                                 *)
 (***************************************************************************)
 AddBranch(st, x) == IF st.n < st.k THEN (IF st.n + 1 = st.k THEN "fill-sort" ELSE "fill")
-                    ELSE IF D(x) < D(st.heap[1]) THEN "replace" ELSE "skip"
+                    ELSE IF Dv(x) < Dv(st.heap[1]) THEN "replace" ELSE "skip"
 
 Add(st, x) ==
     IF st.n < st.k
     THEN IF st.n + 1 = st.k
          THEN [st EXCEPT !.heap = SortDesc(Append(st.heap, x)), !.n = st.n + 1, !.sorted = TRUE]
          ELSE [st EXCEPT !.heap = Append(st.heap, x), !.n = st.n + 1, !.sorted = FALSE]
-    ELSE IF D(x) < D(st.heap[1])
+    ELSE IF Dv(x) < Dv(st.heap[1])
          THEN [st EXCEPT !.heap = SiftDown([st.heap EXCEPT ![1] = x], 0, st.k - 1),
                          !.n = st.n + 1, !.sorted = FALSE]
          ELSE [st EXCEPT !.n = st.n + 1, !.sorted = FALSE]
@@ -78,10 +78,10 @@ SetRoot(st, x) == [st EXCEPT !.heap = [st.heap EXCEPT ![1] = x]]
 
 (* peek(): a[0] if `sorted`, else a linear scan for the maximum *)
 RECURSIVE MaxDUpTo(_, _)
-MaxDUpTo(h, j) == IF j = 1 THEN D(h[1])
-                  ELSE LET m == MaxDUpTo(h, j - 1) IN IF D(h[j]) > m THEN D(h[j]) ELSE m
+MaxDUpTo(h, j) == IF j = 1 THEN Dv(h[1])
+                  ELSE LET m == MaxDUpTo(h, j - 1) IN IF Dv(h[j]) > m THEN Dv(h[j]) ELSE m
 MaxD(h) == MaxDUpTo(h, Len(h))
-Peek(st) == IF st.sorted THEN D(st.heap[1]) ELSE MaxD(st.heap)
+Peek(st) == IF st.sorted THEN Dv(st.heap[1]) ELSE MaxD(st.heap)
 
 (***************************************************************************)
 (* Contract, stated on plain sequences of d-values (so that the trace      *)
@@ -98,7 +98,7 @@ RECURSIVE AscUpTo(_, _)
 AscUpTo(s, j) == IF j = 0 THEN <<>> ELSE InsAsc(AscUpTo(s, j - 1), s[j])
 Asc(s) == AscUpTo(s, Len(s))
 
-Ds(h) == [i \in 1..Len(h) |-> D(h[i])]
+Ds(h) == [i \in 1..Len(h) |-> Dv(h[i])]
 Prefix(s, m) == SubSeq(s, 1, IF m < Len(s) THEN m ELSE Len(s))
 
 Retained(k, insertedAsc, arr) == Asc(arr) = Prefix(insertedAsc, k)
